@@ -10,5 +10,8 @@ theorem to_snake_case : @Generated.Funcs.to_snake_case = @Pinned.Funcs.to_snake_
 theorem is_list_item : @Generated.Funcs.is_list_item = @Pinned.Funcs.is_list_item := rfl
 theorem get_subsequent_line_indentation_level : @Generated.Funcs.get_subsequent_line_indentation_level = @Pinned.Funcs.get_subsequent_line_indentation_level := rfl
 theorem address_resolve : @Generated.Funcs.address_resolve = @Pinned.Funcs.address_resolve := rfl
+theorem fix_whitespace : @Generated.Funcs.fix_whitespace = @Pinned.Funcs.fix_whitespace := rfl
+theorem make_private : @Generated.Funcs.make_private = @Pinned.Funcs.make_private := rfl
+theorem coerce_response_name : @Generated.Funcs.coerce_response_name = @Pinned.Funcs.coerce_response_name := rfl
 
 end GapicModel.Bridge.Funcs
